@@ -24,6 +24,11 @@ m('c05_marker_inverted', 'C05', 'individual.py',
   'self.costs_signed.append(bool(self.features["feasible"]))')
 m('c05_constraint_le', 'C05', 'job.py', "all(v < eps for (v) in constraints)", "all(v <= 0.5 for (v) in constraints)")
 
+m('c05_sign_skipped_without_criteria', 'C05', 'problem.py',
+  "            else:\n                self.signs.append(1)\n", "")
+m('c05_sign_of_missing_criteria_taken_from_previous', 'C05', 'problem.py',
+  "            else:\n                self.signs.append(1)\n", "            else:\n                self.signs.append(self.signs[-1] if self.signs else 1)\n")
+
 # ---------------------------------------------------------------- C06
 m('c06_range4', 'C06', 'job.py', "for i in range(5):", "for i in range(4):")
 m('c06_range6', 'C06', 'job.py', "for i in range(5):", "for i in range(6):")
@@ -67,6 +72,8 @@ m('c10_costs_signed_as_costs', 'C10', 'individual.py', "        individual.costs
 
 # ---------------------------------------------------------------- C11
 m('c11_journal_off', 'C11', 'datastore.py', "c.execute('PRAGMA journal_mode = ON')", "c.execute('PRAGMA journal_mode = OFF')")
+m('c11_swallow_operational_error', 'C11', 'datastore.py',
+  "                # try again\n                self.sync_individual(individual)", "                # try again\n                pass")
 m('c11_early_sync_before_costs', 'C11', 'job.py',
   "                costs = self.problem.surrogate.evaluate(individual)\n                individual.costs = list(costs)  # a numpy array would break later list operations (append, vector + costs)\n",
   "                costs = self.problem.surrogate.evaluate(individual)\n                individual.state = individual.State.EVALUATED\n"
